@@ -246,6 +246,6 @@ def random_oracle(case, stats):
 
 PARTS = [
     EnumPart("exhaustive-small", enum_cases, oracle, chunk=500),
-    HypPart("random", lambda tier: random_case(tier), random_oracle, {"quick": 3000, "thorough": 30000}),
+    HypPart("random", lambda tier: random_case(tier), random_oracle, {"quick": 6000, "thorough": 40000}),
     FuzzPart("coverage-guided-random", "random", runs=5000),
 ]
